@@ -5,6 +5,7 @@ import AriadneModel.Model.ResultTypes
 import AriadneModel.Model.Triggers01
 import AriadneModel.Spec.Pyd
 import AriadneModel.Spec.Exec
+import AriadneModel.Spec.Validate
 
 open Lean (Json)
 open Ariadne Ariadne.Gql Ariadne.ResultTypes
@@ -107,6 +108,18 @@ def handle (j : Json) : Except String Json := do
     let env ← decEnv j
     let ops ← decOps j
     pure (strs (Triggers01.triggers { env := env, ops := ops }))
+  | "respOK" =>
+    -- Spec.Exec.respOK: can a conformant executor answer `operation` (as SENT) with each payload?
+    let env ← decEnv j
+    let o ← GqlWire.operation (← j.getObjVal? "operation")
+    let payloads ← (← GqlWire.arr j "payloads").mapM Wire.dec
+    match Validate.rootOf env.schema o with
+    | some rt => pure (Json.arr (payloads.map fun p => Json.bool (Exec.respOK env.schema env.frags 1000 rt o.sel p)).toArray)
+    | none => pure (Json.mkObj [("error", "no root type")])
+  | "validDoc" =>
+    let env ← decEnv j
+    let ops ← decOps j
+    pure (Json.bool (Validate.validDoc env.schema env.frags ops 1000))
   | "leafConforms" =>
     -- Spec.Exec.conforms / ResultLeaf-style lax conformance on one (type, value) pair
     let env ← decEnv j
